@@ -14,7 +14,7 @@ pub fn def() -> CheckDef {
         bounds_quick: "lax diagrams with <=3 nodes, <=2 hyperedges of arity <=2, interfaces <=2 (<=6 node references), without pending pairs (image) and with 1 pending pair (refusal); functor families: doubling, erasing, label-dependent lengths 0/1/2, composite image carrying pending unifications (built by lax composition and imperatively), spider-only image; all wirings enumerated, labels symbolic",
         bounds_thorough: "<=4 nodes, <=8 node references",
         jobs,
-        budget_s: (150, 2400),
+        budget_s: (150, 1500),
     }
 }
 
@@ -103,7 +103,7 @@ pub fn shapes_for(tier: Tier) -> Vec<LaxShape> {
 }
 
 pub fn jobs(tier: Tier, _seed: u64) -> Vec<Job> {
-    let per_job = Duration::from_secs(if tier == Tier::Quick { 90 } else { 1200 });
+    let per_job = Duration::from_secs(if tier == Tier::Quick { 90 } else { 600 });
     let cfg = base_cfg(tier);
     let mut out = vec![];
     for sh in shapes_for(tier) {
